@@ -145,7 +145,9 @@ def run_property(pid, tier, seed, repo='/repo', only_deductive=False, timeout=No
     t0 = time.time()
     P = PROPS[pid]
     ti = 0 if tier == 'quick' else 1
-    timeout = timeout or (20 if tier == 'quick' else 90)
+    # generous wall-clock budgets: verdicts must not flip when the machine is busy (a budget is only exhausted by obligations
+    # that do not hold or lost their proof hint)
+    timeout = timeout or (60 if tier == 'quick' else 180)
     interp.clear_modules()
     ctx = verify.new_ctx(repo)
     ctx.trace_mode = bool(P.get('trace_mode'))
